@@ -11,6 +11,35 @@
 
 using namespace vf;
 
+#ifdef VF_ARM_NEW
+// C07: the value types of this configuration never allocate, so any operator new reached from inside a library call
+// (and not from harness code running there) is memory that did not come from the allocator
+void* operator new(std::size_t n)
+{
+    vf::note_operator_new();
+    void* p = std::malloc(n ? n : 1);
+    if (!p) throw std::bad_alloc();
+    return p;
+}
+void* operator new[](std::size_t n) { return ::operator new(n); }
+void* operator new(std::size_t n, std::align_val_t a)
+{
+    vf::note_operator_new();
+    void* p = nullptr;
+    if (posix_memalign(&p, static_cast<std::size_t>(a) < sizeof(void*) ? sizeof(void*) : static_cast<std::size_t>(a), n ? n : 1) != 0) throw std::bad_alloc();
+    return p;
+}
+void* operator new[](std::size_t n, std::align_val_t a) { return ::operator new(n, a); }
+void operator delete(void* p) noexcept { std::free(p); }
+void operator delete[](void* p) noexcept { std::free(p); }
+void operator delete(void* p, std::size_t) noexcept { std::free(p); }
+void operator delete[](void* p, std::size_t) noexcept { std::free(p); }
+void operator delete(void* p, std::align_val_t) noexcept { std::free(p); }
+void operator delete[](void* p, std::align_val_t) noexcept { std::free(p); }
+void operator delete(void* p, std::size_t, std::align_val_t) noexcept { std::free(p); }
+void operator delete[](void* p, std::size_t, std::align_val_t) noexcept { std::free(p); }
+#endif
+
 namespace
 {
 constexpr int POOL = 3;
@@ -151,6 +180,7 @@ struct Engine
         if ((a && is_empty_state(*a)) || (b && is_empty_state(*b)) || k == OP_DEFAULT_CONSTRUCT) p += ",C18";
         if (((a && a->moved_from) || (b && b->moved_from)) && p.find("C09") == std::string::npos) p += ",C09";
         if (k == OP_DESTROY) p += ",C07";
+        if ((k == OP_EMPLACE_BACK || k == OP_FILL) && a && a->grown_by_reserve && p.find("C10") == std::string::npos) p += ",C10";
         return p;
     }
 
@@ -166,6 +196,8 @@ struct Engine
         }
         cur_pre = pre;
         cur_op = OP_NAME[k];
+        // filling a vector up to what a growing reserve() promised: bounds violations there are also C10's
+        out().extra_props = ((k == OP_EMPLACE_BACK || k == OP_FILL) && ma && ma->grown_by_reserve) ? "C10" : "";
         set_ctx(case_no, step, OP_NAME[k], pre.c_str(), death_props(k, ma, mb).c_str(), args.c_str());
         ++op_count[OP_NAME[k]];
         prestate_op.insert(std::string(OP_NAME[k]) + "@" + pre);
@@ -420,10 +452,7 @@ struct Engine
         MElem e = gen_elem(m, style);
         begin_op(OP_EMPLACE_BACK, i, -1, fmt("v%d,id=%" PRIu64 ",counts=%s", i, e.id, jarr_num(counts_of(e)).c_str()));
         const auto a = before();
-        {
-            LibCall lc;
-            G::emplace_back(*s[i].v, e);
-        }
+        G::emplace_back(*s[i].v, e);
         m.e.push_back(std::move(e));
         m.ever_held = true;
         no_allocator_traffic(a, "emplace_back within capacity");
@@ -614,6 +643,8 @@ struct Engine
             const size_t per = max_item_bytes();
             b = held + static_cast<size_t>(rng.range(0, static_cast<int64_t>((n > m.e.size() ? n - m.e.size() : 0) * per * lim.max_span / 2 + per)));
             if (rng.chance(1, 8)) b = held;
+            // also budgets below the current one: the new layout may then fit the block the vector already owns
+            if (rng.chance(1, 4) && m.budget > held) b = held + static_cast<size_t>(rng.below((m.budget - held) / 2 + 1));
         }
         begin_op(OP_RESERVE, i, -1, fmt("v%d,n=%zu,b=%zu", i, n, b));
         const bool grows = n > m.cap;
@@ -632,12 +663,14 @@ struct Engine
             m.cap = n;
             m.budget = b;
             m.fresh_block = true;
+            m.grown_by_reserve = true;
             m.default_constructed = false;
             cf.realloc_with_block = cf.realloc_with_block || a.snap[i].data_begin != 0;
             cf.data_allocs += 1;
             cf.quiet_streak = 0;
             if (std::as_const(*s[i].v).capacity() != n) viol("C10", "reserve_capacity", fmt("capacity() == %zu after reserve(%zu)", std::as_const(*s[i].v).capacity(), n));
             check_footprint(i, a.snap[i].valid ? footprint_before[i] : 0, 0, "reserve");
+            fill_after_reserve = rng.chance(1, 2);
         }
         else
         {
@@ -647,7 +680,14 @@ struct Engine
             ++cf.quiet_streak;
         }
         check_all("reserve");
+        if (fill_after_reserve && !cut)
+        {
+            // C10: after reserve the vector can hold n elements with b bytes of payload
+            fill_after_reserve = false;
+            op_fill(i);
+        }
     }
+    bool fill_after_reserve = false;
 
     size_t footprint_before[POOL]{};
 
@@ -705,6 +745,7 @@ struct Engine
             }
             MVec m = sm;
             m.arena = soccc_arena(sm.arena);
+            m.grown_by_reserve = false;
             m.fresh_block = sm.fresh_block;  // the copy gets a block as large as the source's, whatever that was sized for
             m.default_constructed = false;
             s[dst].m = m;
@@ -781,6 +822,7 @@ struct Engine
                 dm = sm;
                 dm.arena = arena;
                 dm.fresh_block = false;
+                dm.grown_by_reserve = false;
                 dm.default_constructed = false;
                 adopt_observed_capacity(dst, sm);
                 if (ledger().alloc_events != a.allocs) { cf.realloc_with_block = cf.realloc_with_block || a.snap[dst].data_begin != 0; cf.data_allocs += 1; }
